@@ -207,6 +207,9 @@ type lineResult struct {
 }
 
 func (r *Runner) replayLine(l *Line) lineResult {
+	if r.cfg.Fam == "sched" && l.Fam == "core" {
+		return r.replaySched(l)
+	}
 	switch l.Fam {
 	case "core":
 		return r.replayCore(l)
@@ -320,8 +323,12 @@ func (r *Runner) writeReplay(prop string, f *Fail, l *Line) string {
 	h := fnv.New64a()
 	h.Write([]byte(l.raw))
 	h.Write([]byte(f.Inst + f.Cat))
-	path := filepath.Join(r.cfg.OutDir, fmt.Sprintf("%s-%s-%016x.json", prop, l.Fam, h.Sum64()))
-	v := Violation{Property: prop, Family: l.Fam, Fail: *f, Line: json.RawMessage(l.raw), Seed: r.cfg.Seed, Tier: r.cfg.Tier, X: stripTrace(r.extra)}
+	fam := l.Fam
+	if r.cfg.Fam == "sched" {
+		fam = "sched"
+	}
+	path := filepath.Join(r.cfg.OutDir, fmt.Sprintf("%s-%s-%016x.json", prop, fam, h.Sum64()))
+	v := Violation{Property: prop, Family: fam, Fail: *f, Line: json.RawMessage(l.raw), Seed: r.cfg.Seed, Tier: r.cfg.Tier, X: stripTrace(r.extra)}
 	b, _ := json.MarshalIndent(v, "", " ")
 	os.WriteFile(path, b, 0o644)
 	return path
@@ -352,6 +359,7 @@ func replayOne(cfg Config, path string) int {
 	cfg.Seed = v.Seed
 	cfg.Tier = v.Tier
 	cfg.Judge = map[string]bool{v.Property: true}
+	cfg.Fam = v.Family
 	if f, ok := replayers[v.Family]; ok {
 		return f(cfg, &v)
 	}
